@@ -85,6 +85,14 @@ def main(c):
         base_ds.append(c12.eq_prog(c12.rand_q(rnd, rnd.randint(6, 90), "eq"), rnd.choice([1, 8, 24])))
         base_ds.append(c12.sm_prog(c12.rand_q(rnd, rnd.randint(6, 90), "sm")))
         base_ds.append(c12.mp_prog(rnd, rnd.randint(4, 60), rnd.choice([3, 9, 20])))
+    # directed: an object pool whose stack of cached objects has to be doubled twice and more (every slot released in a row), with
+    # every allocation - the doublings included - refused in turn; the pool must survive a refused doubling
+    for one, n in ((True, 7), (False, 20)):
+        L = ["prog mp"] + (["pool1 1"] if one else [])
+        for rep in range(2):
+            L += ["pmalloc %d" % i for i in range(1, n + 1)] + ["pfree %d" % i for i in range(1, n + 1)]
+        L += ["pmalloc 1", "pmalloc 2", "patexit 1", "end"]
+        base_ds.append("\n".join(L) + "\n")
     # directed: drain a queue/map far enough that compaction shrinks the backing array (shrink-time realloc failure)
     for n in (16, 64, 130):
         base_ds.append(c12.eq_prog([("add", i + 1) for i in range(n)] + [("delete", 0)] * (n - 1) + [("add", 7), ("add", 8), ("get", 0), ("get", 1), ("get", 2)], 8))
